@@ -287,6 +287,44 @@ func checkC20(c c20Case) error {
 					return fmt.Errorf("%s: error %T %v, want a ParamExpError or an ArithExprError", step, gerr, gerr)
 				}
 			}
+		case "trimcount":
+			// the pattern word of a trimming operator on $@ / $* / $1 steps a
+			// counter: once, however many positional parameters there are
+			cmd, _, err := parser.ParseCommand("c20", "_ "+op.Src)
+			if err != nil {
+				return fmt.Errorf("harness: %q: %v", op.Src, err)
+			}
+			w := cmd.(*ast.Cmd).Expr.(*ast.SimpleCmd).Args[1]
+			snap := oracle.Snapshot(w)
+			if e := guard(func() error { env.Expand(w, 0); return nil }); e != nil {
+				return fmt.Errorf("%s: Expand %v", step, e)
+			}
+			if oracle.Snapshot(w) != snap {
+				return fmt.Errorf("%s: Expand changed the word it was given", step)
+			}
+			n, _ := strconv.Atoi(model["n_"])
+			model["n_"] = strconv.Itoa(n + 1)
+		case "rawpos":
+			// a positional parameter spelled with leading zeros, in a word built
+			// by hand (the parser does not accept the spelling): whatever the
+			// outcome, neither the word nor the store changes
+			var w ast.Word
+			pe := &ast.ParamExp{Braces: true, Name: &ast.Lit{Value: op.Name}}
+			switch op.Value {
+			case "#len":
+				pe.Op = "#"
+			case "":
+			default:
+				pe.Op, pe.Word = op.Value, ast.Word{&ast.Lit{Value: "W"}}
+			}
+			w = ast.Word{pe}
+			snap := oracle.Snapshot(w)
+			if e := guard(func() error { env.Expand(w, 0); return nil }); e != nil {
+				return fmt.Errorf("%s: Expand %v", step, e)
+			}
+			if after := oracle.Snapshot(w); after != snap {
+				return fmt.Errorf("%s: Expand changed the word it was given: %s", step, firstDiff(after, snap))
+			}
 		case "arithassign":
 			// ${name:=$c20_src} inside an arithmetic expansion: what is stored
 			// is the value of the word, as everywhere
@@ -469,6 +507,17 @@ var c20Exprs = map[string]*ref.ANode{
 	"(1 || 7++) + (b += 1)": {Kind: "bin", Op: "+",
 		A: &ref.ANode{Kind: "bin", Op: "||", A: &ref.ANode{Kind: "num", S: "1"}, B: &ref.ANode{Kind: "postinc", S: "7"}},
 		B: &ref.ANode{Kind: "asg", Op: "+=", S: "b", A: &ref.ANode{Kind: "num", S: "1"}}},
+	// a conditional inside an operand that is not evaluated
+	"1 ? 1 : 0 ? 2 : (_x = 3)": {Kind: "cond", A: &ref.ANode{Kind: "num", S: "1"}, B: &ref.ANode{Kind: "num", S: "1"},
+		C: &ref.ANode{Kind: "cond", A: &ref.ANode{Kind: "num", S: "0"}, B: &ref.ANode{Kind: "num", S: "2"}, C: &ref.ANode{Kind: "asg", Op: "=", S: "_x", A: &ref.ANode{Kind: "num", S: "3"}}}},
+	"b = 0 && (1 ? 2 : 3)": {Kind: "asg", Op: "=", S: "b",
+		A: &ref.ANode{Kind: "bin", Op: "&&", A: &ref.ANode{Kind: "num", S: "0"}, B: &ref.ANode{Kind: "cond", A: &ref.ANode{Kind: "num", S: "1"}, B: &ref.ANode{Kind: "num", S: "2"}, C: &ref.ANode{Kind: "num", S: "3"}}}},
+	"(1 || (A ? 1 : 2)) + (b = 4)": {Kind: "bin", Op: "+",
+		A: &ref.ANode{Kind: "bin", Op: "||", A: &ref.ANode{Kind: "num", S: "1"}, B: &ref.ANode{Kind: "cond", A: &ref.ANode{Kind: "var", S: "A"}, B: &ref.ANode{Kind: "num", S: "1"}, C: &ref.ANode{Kind: "num", S: "2"}}},
+		B: &ref.ANode{Kind: "asg", Op: "=", S: "b", A: &ref.ANode{Kind: "num", S: "4"}}},
+	"0 ? (1 ? (a = 1) : 2) : (_x += 2)": {Kind: "cond", A: &ref.ANode{Kind: "num", S: "0"},
+		B: &ref.ANode{Kind: "cond", A: &ref.ANode{Kind: "num", S: "1"}, B: &ref.ANode{Kind: "asg", Op: "=", S: "a", A: &ref.ANode{Kind: "num", S: "1"}}, C: &ref.ANode{Kind: "num", S: "2"}},
+		C: &ref.ANode{Kind: "asg", Op: "+=", S: "_x", A: &ref.ANode{Kind: "num", S: "2"}}},
 	// not expressions (nil): a syntax error, also inside an operand that is not evaluated
 	"0 && (1 +":  nil,
 	"1 || (2 *":  nil,
@@ -596,6 +645,16 @@ func TestC20(t *testing.T) {
 				if rapid.IntRange(0, 3).Draw(rt, "arithassign") == 0 && !c20Special(name) {
 					form := rapid.SampledFrom([]string{"$((${%s:=$c20_src} + 1))", "$((${%s:=${c20_src}}*2))", `"$((${%s:="$c20_src"}))"`, "$((1 + ${%s=$c20_src}))"}).Draw(rt, "aaform")
 					c.Ops[len(c.Ops)-1] = c20Op{Kind: "arithassign", Name: name, Src: fmt.Sprintf(form, name)}
+				}
+				nonEmpty := len(c.Args) >= 1
+				for _, a := range c.Args {
+					nonEmpty = nonEmpty && a != ""
+				}
+				// (whether the pattern is expanded at all for a null parameter is not specified)
+				if nonEmpty && rapid.IntRange(0, 4).Draw(rt, "trimcount") == 0 {
+					c.Ops[len(c.Ops)-1] = c20Op{Kind: "trimcount", Src: rapid.SampledFrom([]string{"${@#$((n_+=1))}", "\"${@##$((n_+=1))}\"", "${*%$((n_+=1))}", "\"${*%%$((n_+=1))}\"", "${1#$((n_+=1))}", "\"${@%$((n_+=1))}\""}).Draw(rt, "tcsrc")}
+				} else if rapid.IntRange(0, 5).Draw(rt, "rawpos") == 0 {
+					c.Ops[len(c.Ops)-1] = c20Op{Kind: "rawpos", Name: rapid.SampledFrom([]string{"01", "02", "010", "007", "09", "0011"}).Draw(rt, "rpname"), Value: rapid.SampledFrom([]string{"", ":=", "=", "?", ":?", "#len", "%", ":-"}).Draw(rt, "rpop")}
 				}
 			case 7:
 				c.Ops = append(c.Ops, c20Op{Kind: "get"})
